@@ -433,7 +433,7 @@ def run_for_else(P, rep, rule="R-EXCL"):
                 rv = st[2]
                 if rv["k"] == "use" and op_local(rv["o"]) and op_local(rv["o"])[0] == val and not op_local(rv["o"])[1]:
                     val = st[1][0]
-                elif rv["k"] == "un" and rv.get("op") == "Not" and op_local(rv["o"]) and op_local(rv["o"])[0] == val and meaning != "len":
+                elif rv["k"] == "un" and rv.get("op") == "Not" and op_local(rv["a"]) and op_local(rv["a"])[0] == val and meaning != "len":
                     val = st[1][0]
                     meaning = "nonempty" if meaning == "empty" else "empty"
                 elif rv["k"] == "bin" and rv["op"] in ("Eq", "Ne", "Gt") and meaning == "len":
